@@ -113,6 +113,13 @@ func CheckGuarded(p *Prog, spec GuardSpec) []GuardSite {
 		nt, _ := t.(*types.Named)
 		return nt != nil && nt.Origin() == named
 	}
+	isOwnerType := func(t types.Type) bool {
+		if pt, ok := t.(*types.Pointer); ok {
+			t = pt.Elem()
+		}
+		nt, _ := t.(*types.Named)
+		return nt != nil && nt.Origin() == named
+	}
 	heldOK := func(ls LockSet, base string, write bool) bool {
 		for _, l := range spec.Locks {
 			m := ls[base+"."+l]
@@ -158,10 +165,6 @@ func CheckGuarded(p *Prog, spec GuardSpec) []GuardSite {
 			}
 			return true
 		})
-		recvName := ""
-		if f.Decl.Recv != nil && len(f.Decl.Recv.List) == 1 && len(f.Decl.Recv.List[0].Names) == 1 {
-			recvName = f.Decl.Recv.List[0].Names[0].Name
-		}
 		bodies := Bodies(f.Decl)
 		flows := map[*ast.BlockStmt]*Flow{}
 		locks := map[*ast.BlockStmt]*Locks{}
@@ -216,7 +219,7 @@ func CheckGuarded(p *Prog, spec GuardSpec) []GuardSite {
 				gs := GuardSite{Fn: f, Acc: a, Held: held, OK: false,
 					Detail: fmt.Sprintf("%s of %s.%s with none of {%s} held (held=%s)", map[bool]string{true: "write", false: "read"}[a.Write], spec.Type, a.Field.Name(), strings.Join(spec.Locks, ","), held)}
 				sites = append(sites, gs)
-				if base == recvName && recvName != "" && body == f.Decl.Body {
+				if pn, _ := ownerParam(f, isOwnerType); base == pn && pn != "" && body == f.Decl.Body {
 					needCaller[f] = append(needCaller[f], len(sites)-1)
 				}
 			}
@@ -237,9 +240,15 @@ func CheckGuarded(p *Prog, spec GuardSpec) []GuardSite {
 			if s.Dynamic {
 				return false, "called dynamically from " + s.Caller.Key
 			}
-			recv := RecvExpr(s.Call)
+			_, pidx := ownerParam(f, isOwnerType)
+			var recv ast.Expr
+			if pidx < 0 {
+				recv = RecvExpr(s.Call)
+			} else if pidx < len(s.Call.Args) {
+				recv = s.Call.Args[pidx]
+			}
 			if recv == nil {
-				return false, "non-method call"
+				return false, "owner value not passed at the call"
 			}
 			body := BodyContaining(s.Caller.Decl, s.Call)
 			fl := NewFlow(p, s.Caller.Info(), body)
@@ -252,9 +261,10 @@ func CheckGuarded(p *Prog, spec GuardSpec) []GuardSite {
 				continue
 			}
 			// the caller may itself be a helper
-			if ok2, _ := callersHold(s.Caller, write, depth+1); ok2 && s.Caller.Decl.Recv != nil &&
-				len(s.Caller.Decl.Recv.List[0].Names) == 1 && ExprStr(recv) == s.Caller.Decl.Recv.List[0].Names[0].Name {
-				continue
+			if cpn, _ := ownerParam(s.Caller, isOwnerType); cpn != "" && ExprStr(recv) == cpn {
+				if ok2, _ := callersHold(s.Caller, write, depth+1); ok2 {
+					continue
+				}
 			}
 			return false, fmt.Sprintf("caller %s at %s does not hold the lock (held=%s)", s.Caller.Key, p.Pos(s.Call.Pos()), held)
 		}
